@@ -16,7 +16,7 @@ import (
 func init() {
 	register(&propDef{
 		ID:          "C09",
-		Explanation: "The fixpoint equation fmt(fmt(x)) == fmt(x) itself is not decided. Decides the structural necessary condition named by the property's anchors — line-break decisions depend only on layout flags that re-parsing the output reproduces: the parser derives each layout flag (Element.IndentChildren, Element.IndentAttrs, GoCode.Multiline) from the presence of a line break inside a source span, so on the flag=false branch the formatter itself must add no line break inside that span, and on the flag=true branch it must add one. R1 in the node-list writer, the line-break constant can reach the trailing-space write only under the `indent` mode (every assignment of a newline-containing constant to the written value is control-dependent on the indent parameter; values taken from the source node are carried over, not added); R2 for each flag, the constants written directly on the false branch contain no line break and the true branch writes at least one; R3 no attribute writer (they run inside the open-tag span) writes a line-break constant unconditionally; R5 a formatter function that writes a trimmed copy of a field tests that same copy (not the raw field) for line breaks; R6 the import rewriter that `templ fmt` runs takes its decision on the number of imports only after the import set is final; R7 the node-list writer takes the recorded trailing space of every node kind that records one (through the interface, or a type switch covering all implementers); R8 the language server's formatting answer is one edit from 0:0 to <number of lines>:0 carrying the formatter's output, so format-on-save and `templ fmt` produce the same file; R9 (= C08.R7) a flag derived from a sibling field is derived from its final value (a quote choice taken before decoding yields output that the next pass cannot parse); R10 the import rewriter does not mutate a file's import list while ranging over it; R4 (purity) no formatter function (Write/String methods of parser nodes and what they call in the package) reads mutable package-level state, the clock, the environment or iterates a map. R11 the whitespace classifier (string → TrailingSpace) returns the vertical value only after a test for \"\\n\" — the one character the formatter writes, and every other layout decision counts, as a line break. NOT decided: nodes whose grammar allows but does not require a line break inside a single-line element (block component calls), expression text re-formatting by go/format, the fixpoint on concrete files. R12 content text is written untransformed whatever the layout flags say (run of C08.R4 for idempotence). R13 the raw-string probe (indent every line, gofmt again) is run on gofmt's output or the original source, never on a piece cut out of it. R11 also: only a line feed makes trailing space vertical. R14 a value a branch computes for an outer variable is assigned to it, not to a shadowing declaration. R15 parallel slices of lines are cut at the same index. R9 also the pre-image clause of C08.R7. R13 also: the probe's result is read position by position. R16 the formatted file is written so that it replaces the old content (os.WriteFile / atomic rename / O_TRUNC). R17 a writer that takes strings.TrimSpace of an expression's text uses only the trimmed text (a raw use on another path writes the padding out again, one space more per run); R18 where the Go-expression slicer walks a list's elements to find its end it keeps the LAST element's end (assignment per iteration or running maximum), never a running minimum.",
+		Explanation: "The fixpoint equation fmt(fmt(x)) == fmt(x) itself is not decided. Decides the structural necessary condition named by the property's anchors — line-break decisions depend only on layout flags that re-parsing the output reproduces: the parser derives each layout flag (Element.IndentChildren, Element.IndentAttrs, GoCode.Multiline) from the presence of a line break inside a source span, so on the flag=false branch the formatter itself must add no line break inside that span, and on the flag=true branch it must add one. R1 in the node-list writer, the line-break constant can reach the trailing-space write only under the `indent` mode (every assignment of a newline-containing constant to the written value is control-dependent on the indent parameter; values taken from the source node are carried over, not added); R2 for each flag, the constants written directly on the false branch contain no line break and the true branch writes at least one; R3 no attribute writer (they run inside the open-tag span) writes a line-break constant unconditionally; R5 a formatter function that writes a trimmed copy of a field tests that same copy (not the raw field) for line breaks; R6 the import rewriter that `templ fmt` runs takes its decision on the number of imports only after the import set is final; R7 the node-list writer takes the recorded trailing space of every node kind that records one (through the interface, or a type switch covering all implementers); R8 the language server's formatting answer is one edit from 0:0 to <number of lines>:0 carrying the formatter's output, so format-on-save and `templ fmt` produce the same file; R9 (= C08.R7) a flag derived from a sibling field is derived from its final value (a quote choice taken before decoding yields output that the next pass cannot parse); R10 the import rewriter does not mutate a file's import list while ranging over it; R4 (purity) no formatter function (Write/String methods of parser nodes and what they call in the package) reads mutable package-level state, the clock, the environment or iterates a map. R11 the whitespace classifier (string → TrailingSpace) returns the vertical value only after a test for \"\\n\" — the one character the formatter writes, and every other layout decision counts, as a line break. NOT decided: nodes whose grammar allows but does not require a line break inside a single-line element (block component calls), expression text re-formatting by go/format, the fixpoint on concrete files. R12 content text is written untransformed whatever the layout flags say (run of C08.R4 for idempotence). R13 the raw-string probe (indent every line, gofmt again) is run on gofmt's output or the original source, never on a piece cut out of it. R11 also: only a line feed makes trailing space vertical. R14 a value a branch computes for an outer variable is assigned to it, not to a shadowing declaration. R15 parallel slices of lines are cut at the same index. R9 also the pre-image clause of C08.R7. R13 also: the probe's result is read position by position. R16 the formatted file is written so that it replaces the old content (os.WriteFile / atomic rename / O_TRUNC). R17 a writer that takes strings.TrimSpace of an expression's text uses only the trimmed text (a raw use on another path writes the padding out again, one space more per run); R18 where the Go-expression slicer walks a list's elements to find its end it keeps the LAST element's end (assignment per iteration or running maximum), never a running minimum. R19 (= C08.R22) the per-line raw-string flags are computed for every line that is handed on and are cut at the same offset as the lines.",
 		Assumptions: []string{"the parser sets a layout flag iff the corresponding source span contains a line break (elementparser.go / gocodeparser.go)"},
 		Trusted:     []string{"go/types", "x/tools go/packages"},
 		Run:         runC09,
@@ -77,6 +77,7 @@ func runC09(c *Ctx) {
 	importListNotMutatedWhileRanged(c, "C09.R10")
 	lineBreakIsNewlineOnly(c, "C09.R11")
 	shiftProbeOnWholeSource(c, "C09.R13")
+	flagsParallelToLines(c, "C09.R19")
 	parallelSlicesCutAlike(c, "C09.R15")
 	outputFilesReplacedIn(c, "C09.R16", "/cmd/templ/fmtcmd", 1)
 	trimmedValueIsTheOneUsed(c, "C09.R17")
